@@ -13,6 +13,7 @@ import (
 	"github.com/aperturerobotics/bifrost/link"
 	"github.com/aperturerobotics/bifrost/peer"
 	"github.com/aperturerobotics/bifrost/testbed"
+	"github.com/aperturerobotics/bifrost/tptaddr"
 	"github.com/aperturerobotics/bifrost/transport"
 	"github.com/aperturerobotics/bifrost/transport/common/dialer"
 	"github.com/aperturerobotics/bifrost/transport/common/pconn"
@@ -37,18 +38,36 @@ type c05Op struct {
 
 type c05Case struct {
 	Ops []c05Op `json:"ops"`
+	// Hold: standing requests to dial X at both addresses (DialTptAddr directives, as a statically configured peer
+	// gives) are kept referenced for the whole history
+	Hold bool `json:"hold,omitempty"`
 }
 
 func genC05(t *rapid.T) c05Case {
 	// rounds of (re)binding an address and dialing X there, with occasional link kills
 	n := rapid.IntRange(2, 4).Draw(t, "rounds")
 	var c c05Case
+	c.Hold = rapid.IntRange(0, 2).Draw(t, "hold") == 0
+	if rapid.IntRange(0, 4).Draw(t, "twolinks") == 0 {
+		// D holds links with X at both addresses; then they go away
+		c.Ops = append(c.Ops, c05Op{Op: "bind", Addr: 0, Who: 1}, c05Op{Op: "dial", Addr: 0}, c05Op{Op: "bind", Addr: 1, Who: 1}, c05Op{Op: "dial", Addr: 1}, c05Op{Op: "kill"})
+	}
+	if rapid.IntRange(0, 3).Draw(t, "joinany") == 0 {
+		// a dial without a required peer is in flight at an address nobody serves yet; then another peer starts
+		// serving it and a dial for X joins
+		a := rapid.IntRange(0, 1).Draw(t, "ja")
+		c.Ops = append(c.Ops, c05Op{Op: "bind", Addr: a, Who: 0}, c05Op{Op: "dialany", Addr: a},
+			c05Op{Op: "bind", Addr: a, Who: rapid.SampledFrom([]int{2, 2, 1}).Draw(t, "jw")}, c05Op{Op: "dial", Addr: a})
+	}
 	for i := 0; i < n; i++ {
 		addr := rapid.IntRange(0, 1).Draw(t, "addr")
 		if rapid.IntRange(0, 3).Draw(t, "rebind") != 0 {
 			c.Ops = append(c.Ops, c05Op{Op: "bind", Addr: addr, Who: rapid.SampledFrom([]int{1, 2, 2, 2, 0}).Draw(t, "who")})
 		}
-		switch rapid.IntRange(0, 5).Draw(t, "pre") {
+		switch rapid.IntRange(0, 6).Draw(t, "pre") {
+		case 6:
+			// a dial of the address without any required peer (whoever answers is fine) is still in flight
+			c.Ops = append(c.Ops, c05Op{Op: "dialany", Addr: addr})
 		case 0:
 			// D first connects to whoever serves the address under that peer's own identity (a legitimate link to Y)
 			c.Ops = append(c.Ops, c05Op{Op: "dialy", Addr: addr})
@@ -154,7 +173,6 @@ func checkDial(c c05Case, refusalOnly bool) (o vstat.Outcome) {
 		o.Discard = true
 		return
 	}
-	_ = dtpt
 	// an application wants links to X (keeps the link directive referenced) and watches what is yielded
 	var wmu sync.Mutex
 	var yielded []link.MountedLink
@@ -172,6 +190,17 @@ func checkDial(c c05Case, refusalOnly bool) (o vstat.Outcome) {
 	}
 	defer wref.Release()
 	addrs := []memAddr{"addr-a", "addr-b"}
+	if c.Hold {
+		for _, a := range addrs {
+			_, href, err := tb.Bus.AddDirective(tptaddr.NewDialTptAddr(&dialer.DialerOpts{Address: "mem|" + string(a), Backoff: fastDialBackoff()}, gen.PeerID(0), gen.PeerID(1)), nil)
+			if err != nil {
+				o.Discard = true
+				return
+			}
+			defer href.Release()
+		}
+		o.Classes = append(o.Classes, "standing-dial-requests")
+	}
 	servers := map[int]*server{}
 	defer func() {
 		for _, s := range servers {
@@ -239,6 +268,21 @@ func checkDial(c c05Case, refusalOnly bool) (o vstat.Outcome) {
 					o.V = vstat.Viol("dial-never-reaches-intended-peer", "after %s: X serves %s but DialPeerAddr(X, %s) did not yield a link within 6 s: %v", strings.Join(hist, " "), addrs[op.Addr], addrs[op.Addr], derr)
 					return
 				}
+			}
+		case "dialany":
+			// no peer required: any answer is acceptable, so from here on a link with Y is legitimate
+			everDialedY = true
+			who := 0
+			if s := servers[op.Addr]; s != nil {
+				who = s.who
+			}
+			dctx, dcancel := context.WithTimeout(ctx, 300*time.Millisecond)
+			// (the controller insists on a peer id; the transport's own DialPeer documents "" as "any peer")
+			lnk, _, derr := dtpt.DialPeer(dctx, "", string(addrs[op.Addr]))
+			dcancel()
+			hist = append(hist, fmt.Sprintf("dial(anyone@%s served by %d)", addrs[op.Addr], who))
+			if derr == nil && lnk != nil && who != 0 {
+				o.Classes = append(o.Classes, "unconstrained-dial-answered")
 			}
 		case "dialy":
 			who := 0
@@ -328,37 +372,50 @@ func checkDial(c c05Case, refusalOnly bool) (o vstat.Outcome) {
 	if linkToY {
 		o.Classes = append(o.Classes, "legitimate-link-to-other-peer-at-address")
 	}
-	// recovery: X becomes reachable at addr-a (the impostor's link, if any, is gone): a request for X is satisfied
-	if s := servers[0]; s != nil {
+	// recovery: every link D holds is gone and X becomes reachable at both addresses (the impostor, if any, has
+	// left): a dial for X at either address is satisfied with a link to X at that address
+	for a, s := range servers {
 		s.cancel()
-		nw.unbind(addrs[0])
+		nw.unbind(addrs[a])
+		delete(servers, a)
 	}
-	for _, l := range ctrl.GetPeerLinks(gen.PeerID(2)) {
-		_ = l.Close()
+	for _, p := range []peer.ID{X, Y} {
+		for _, l := range ctrl.GetPeerLinks(p) {
+			_ = l.Close()
+		}
 	}
-	time.Sleep(20 * time.Millisecond)
-	s, err := startServer(nw, addrs[0], 1)
-	if err != nil {
-		o.Discard = true
-		return
+	time.Sleep(30 * time.Millisecond)
+	for a := range addrs {
+		s, err := startServer(nw, addrs[a], 1)
+		if err != nil {
+			o.Discard = true
+			return
+		}
+		servers[a] = s
 	}
-	servers[0] = s
-	dctx, dcancel := context.WithTimeout(ctx, 8*time.Second)
-	lnk, derr := ctrl.DialPeerAddr(dctx, X, &dialer.DialerOpts{Address: string(addrs[0]), Backoff: fastDialBackoff()})
-	dcancel()
-	if (derr != nil || lnk == nil) && len(ctrl.GetPeerLinks(X)) == 0 {
-		o.V = vstat.Viol("no-recovery", "after %s, with X now serving %s, a dial for X did not succeed within 8 s: %v", strings.Join(hist, " "), addrs[0], derr)
-		return
-	}
-	if lnk != nil && lnk.GetRemotePeer() != X {
-		o.V = vstat.Viol("dial-credits-wrong-peer", "recovery dial returned a link to %s", lnk.GetRemotePeer())
+	for a := range addrs {
+		dctx, dcancel := context.WithTimeout(ctx, 8*time.Second)
+		lnk, derr := ctrl.DialPeerAddr(dctx, X, &dialer.DialerOpts{Address: string(addrs[a]), Backoff: fastDialBackoff()})
+		dcancel()
+		if lnk != nil && lnk.GetRemotePeer() != X {
+			o.V = vstat.Viol("dial-credits-wrong-peer", "recovery dial returned a link to %s", lnk.GetRemotePeer())
+			return
+		}
+		linked := waitForT(4*time.Second, func() bool {
+			l, ok := dtpt.LookupLinkWithAddr(string(addrs[a]))
+			return ok && l.GetRemotePeer() == X
+		})
+		if !linked {
+			o.V = vstat.Viol("no-recovery", "after %s, all links gone and X now serving %s: a dial for X there did not produce a link within 8 s: %v", strings.Join(hist, " "), addrs[a], derr)
+			return
+		}
 	}
 	return
 }
 
 var specC05 = vstat.Spec[c05Case]{
 	Property: "C05",
-	Rule: "a real transport controller (identity D) running the pconn/QUIC transport over an in-memory packet switch with re-bindable addresses; histories of 3-8 operations bind(address served by the intended peer X / an impostor Y with another key / nobody), DialPeerAddr(X, address), kill links; then a recovery phase in which X serves the address; " +
+	Rule: "a real transport controller (identity D) running the pconn/QUIC transport over an in-memory packet switch with re-bindable addresses; histories of 3-8 operations bind(address served by the intended peer X / an impostor Y with another key / nobody), DialPeerAddr(X, address) (also for Y under its own name, for a key-less id, and transport-level dials without a required peer), kill links; then a recovery phase in which all links are gone and X serves both addresses; " +
 		"oracle: a successful dial for X returns a link whose authenticated remote peer is X; nothing yielded for 'a link to X' or listed for X is a link to another peer; when X serves the address the dial succeeds (eventual, 6-8 s), also after an impostor answered there; non-trivial = the impostor answered a dial",
 	Assumptions: []string{"QUIC handshakes over the in-memory switch complete within the waits; a dial against an impostor is given 0.9 s before it is cancelled"},
 	Gen:         genC05,
